@@ -167,7 +167,8 @@ func addOff(base Term, off int) Term {
 	if off == 0 {
 		return base
 	}
-	return app("Int", "+", base, intLit(int64(off)))
+	// interior address as an injective symbolic function of (object, offset): no arithmetic needed to separate cells
+	return app("Int", "ia", base, intLit(int64(off)))
 }
 
 func fieldComp(t types.Type, name string) string {
